@@ -111,6 +111,25 @@ Proof.
 Qed.
 Print Assumptions shipped_schemas_premises.
 
+(* non-vacuity of the remaining premises: every descendant of the example schema carries its discriminator, initializers and members
+   (outline_order_when_descendants_carry); the factory maps of both shipped schemas have a descriptor for the abstract struct Transaction
+   (factory_entry_keys: `fm_find (s_name a) m = Some fd`), with the discriminator (type, version) on Symbol *)
+Example premises_nonvacuous :
+  (forall s, In (DStruct s) example_schema -> s_factory_type s <> None -> carries s)
+  /\ match build_factory_map sc_schema with
+     | Ok m => match fm_find "Transaction"%string m, fm_find "EmbeddedTransaction"%string m with
+               | Some fd, Some fd' => map av_text (fd_names fd) = ["type"%string; "version"%string] /\ fd_names fd' = fd_names fd
+               | _, _ => False
+               end
+     | _ => False
+     end
+  /\ match build_factory_map nc_schema with
+     | Ok m => match fm_find "Transaction"%string m with Some fd => fd_names fd <> [] | None => False end
+     | _ => False
+     end.
+Proof. split; [exact example_carries|]. vm_compute. repeat split; try reflexivity. discriminate. Qed.
+Print Assumptions premises_nonvacuous.
+
 (* every class, base, SIZE, enum member and value, constant, TYPE_HINTS key and hint, method (decorator, name, result annotation),
    factory, mapping entry and create_by_name key of the checked-in module, in order, is what the model yields for the schema *)
 Theorem sc_module_outline_partial : outline sc_schema = sc_outline_actual.
